@@ -1503,6 +1503,12 @@ def tables(repo, tier):
         allowed_globals |= {k for k, v in m.imports.items() if v.split(".")[0] in ("logging", "typing", "__future__")}
         locs = {a.arg for a in fo.args.args} | {n.id for n in ast.walk(fo) if isinstance(n, ast.Name) and isinstance(n.ctx, ast.Store)}
         locs |= {a.arg for a in fp.args.args} | {fp.name}
+        for nf in ast.walk(fo):                     # every nested def / lambda: its name and parameters are locals of the converter
+            if isinstance(nf, (ast.FunctionDef, ast.Lambda)) and nf is not fo:
+                locs |= {a.arg for a in nf.args.args + nf.args.kwonlyargs + nf.args.posonlyargs}
+                locs |= {a.arg for a in (nf.args.vararg, nf.args.kwarg) if a is not None}
+                if isinstance(nf, ast.FunctionDef):
+                    locs.add(nf.name)
         ann = set()
         for n in ast.walk(fo):
             for a in ([n.annotation] if isinstance(n, (ast.AnnAssign, ast.arg)) and n.annotation is not None else []) + \
